@@ -503,6 +503,13 @@ def r2_bond_types(chk):
     asg = [x for x in walk_no_nested(s.node) if isinstance(x, ast.Assign) and norm(x.targets[0]) == "self.btype"]
     chk.decide(len(asg) == 1 and norm(asg[0].value) == f"MOL2_BOND_TYPE_MAP[{s.params()[1]}]", "C07.R2", f"{s.key}:lookup", s.where(),
                "btype = MOL2_BOND_TYPE_MAP[token]", "Bond.set_mol2_type no longer looks the token up in MOL2_BOND_TYPE_MAP")
+    # the token written is computed from the bond / atom as it is *now*: a memoised getter keeps emitting the type the object had when
+    # it was first written (write, edit btype, write again)
+    for gg in (g, chk.prog.func("molli.chem.atom:Atom.get_mol2_type")):
+        raw = getattr(gg, "raw", None) or gg.node
+        memo = [norm(d_) for d_ in raw.decorator_list if any(k_ in norm(d_) for k_ in ("cache", "lru_cache", "cached_property"))]
+        chk.decide(not memo, "C07.R2", f"{gg.key}:token-from-current-state", gg.where(), "computed on every call",
+                   f"{gg.qualname} is memoised ({', '.join(memo)}): after a type is edited in place the old token is still written - the text no longer describes the molecule")
     if any("cache" in norm(d_) for d_ in s.node.decorator_list):
         chk.note("Bond.set_mol2_type is wrapped in functools.cache: a repeated call with the same token on the same bond is skipped "
                  "(and every bond ever typed is kept alive). Not reachable through the readers (each bond is typed once); outside what C07 states.")
@@ -662,6 +669,19 @@ def r3_records(chk):
                 and c.args and isinstance(c.args[0], ast.Constant) and "@<TRIPOS>" in str(c.args[0].value)]
         chk.decide(secs == ["'@<TRIPOS>ATOM\\n'", "'@<TRIPOS>BOND\\n'"], "C07.R3", f"{f.key}:sections", f.where(), "ATOM then BOND section headers",
                    f"section headers written: {secs}")
+        # ... for every molecule: the reader insists on both sections, also when one of them is empty (a molecule without bonds)
+        from ..canon import path_conditions as _pcs
+        from ..util import innermost_stmt as _ist
+
+        cond = []
+        for c in [x for x in walk_no_nested(f.node) if isinstance(x, ast.Call) and isinstance(x.func, ast.Attribute) and x.func.attr == "write" and x.args
+                  and isinstance(x.args[0], ast.Constant) and "@<TRIPOS>" in str(x.args[0].value)]:
+            pc = [t for t in _pcs(f.node, _ist(f.node, c)) if any(a_ in norm(t) for a_ in ("n_bonds", "n_atoms", "self.bonds", "self.atoms", "len("))]
+            if pc:
+                cond.append((c, pc[0]))
+        chk.decide(not cond, "C07.R3", f"{f.key}:sections-unconditional", f.where(cond[0][0] if cond else None), "both section headers are written whatever the counts",
+                   (f"`{short(cond[0][0], 40)}` is written only when `{short(cond[0][1], 30)}`: for a molecule with none (an ion pair, an xyz-derived structure) molli's own reader rejects "
+                    "the text it wrote") if cond else "")
 
 
 # ---------------------------------------------------------------------------
